@@ -1,13 +1,23 @@
 #!/bin/bash
-# seed_detect.sh [ids...] : apply each confirmed seeded change to /repo, run the property's quick check, undo, record what fired
+# seed_detect.sh [ids...] : apply each confirmed seeded change to /repo, run the quick check of the property it was
+# written against (plus any further checks named in seeded/<id>/checks: a change can break a property through code
+# another property's check exercises), undo, record what fired.
+# Run it from a snapshot of /verif (VERIF_DIR) when /verif is being edited.
 VERIF_DIR=${VERIF_DIR:-/verif}; cd $VERIF_DIR
 ids="$@"
 [ -z "$ids" ] && ids=$(ls seeded | grep -E '^C[0-9]+-[A-Z]$')
 mkdir -p /root/detect
 for id in $ids; do
   prop=${id%-*}
+  checks=$prop
+  [ -f $VERIF_DIR/seeded/$id/checks ] && checks=$(cat $VERIF_DIR/seeded/$id/checks)
   if ! git -C /repo apply $VERIF_DIR/seeded/$id/patch.diff 2>/root/detect/$id.apply; then echo "$id APPLY-FAILED"; continue; fi
-  timeout 1500 ./check $prop quick > /root/detect/$id.out 2>&1; rc=$?
+  rc=0; : > /root/detect/$id.out
+  for p in $checks; do
+    timeout 1800 ./check $p quick >> /root/detect/$id.out 2>&1; r=$?
+    [ $r -gt $rc ] && rc=$r
+    [ $r = 1 ] && break
+  done
   git -C /repo checkout -- . ; git -C /repo status --short | grep -v '^??' | head -2
   keys=$(grep -E '^VIOLATION' /root/detect/$id.out | sed -E 's/.* key=([^ ]+) .*/\1/' | sort -u | head -6 | paste -sd' ')
   echo "$id rc=$rc keys: $keys"
